@@ -29,3 +29,12 @@ def gen(rng, tier):
     cases = [cocases.gen_case(rng) for _ in range(n)]
     cases += [cocases.leak_case(rng) for _ in range(n // 4)]
     return cases
+
+PINNED = ['C09_holds', 'C09_deques_empty']
+LEVEL_TEXT = 'Unbounded theorem with NO premise (all bodies, all histories, any number of coroutines on the thread): the wake-up time and cancellation reported for a yield are exactly those requested in that yield; invariant: both thread-local request deques are empty whenever control is in the driver. Tied to /repo by histories mixing plain suspends, delays, cancels and syscall-state yields (what EventLoop::wait_just does) on real coroutines.'
+LEVEL_NOTE = ("Trusted: Coq kernel + vm_compute; hand transcription of state.rs / korosensei.rs (raw_resume) / suspender.rs / "
+              "mod.rs (resume_with) / listener.rs (broadcast) / catch! (model Co.v) validated on sampled histories only; "
+              "corosensei's context switch is modelled as 'a yield returns control to resume_with with the yielded value'; "
+              "single thread; premise for C07/C08: bodies do not contain the internal IUnreachable marker (never generated). "
+              "No axioms (closed under the global context).")
+TECHNIQUE = "Coq proof (simulation invariant between a Gallina model and a specification tracker) + differential correspondence inside Coq"
